@@ -29,7 +29,7 @@ THEOREMS = ['C14_scan_terminates', 'C14_fuel_irrelevant', 'C14_scan_ordered', 'C
             'C14_stunted_incremental', 'C14_trial_cannot_disturb', 'C14_H_stable_instantiated',
             'C14_scan_value_eq_parse_instantiated', 'C14_scan_value_eq_parse_substring_instantiated',
             'C14_scan_longest_instantiated', 'C14_scan_no_miss_instantiated', 'C14_instantiated_example']
-GEN_DEPS = ['ScanHoles']
+GEN_DEPS = ['ScanHoles', 'DynStep', 'LexStep', 'LineCounter']
 RULE = ('random LALR grammars (1-3 nonterminals, EBNF operators, nullable starts, keywords through the unless '
         'mechanism, ignored whitespace / comment terminals whose bodies overlap real terminals) x lexer in '
         '{contextual, basic} x str/bytes x propagate_positions x whole text or TextSlice window; texts are built from '
